@@ -362,6 +362,7 @@ func c03ChildResolved(c *core.Ctx) {
 		if recv == nil || !mutators[f.Name()] {
 			continue
 		}
+		k := 0
 		tn := namedElem(recv.Type())
 		if tn == nil || (tn.Obj().Name() != "extensionNode" && tn.Obj().Name() != "branchNode") {
 			continue
@@ -407,8 +408,9 @@ func c03ChildResolved(c *core.Ctx) {
 				return
 			}
 			n++
+			k++
 			c.Sites++
-			name := fmt.Sprintf("%s/child-use#%d(%s)", fname(f), n, handedOn)
+			name := fmt.Sprintf("%s/child-use#%d(%s)", fname(f), k, handedOn)
 			c.Check(resolvedAt(f, ld, 0), rule, name, ld.Pos(), "a checked resolveIfCollapsed on the node precedes this use (here or at every call site)",
 				"the child pointer is "+handedOn+" without a preceding checked resolveIfCollapsed on this node: on a recreated/collapsed trie the pointer is nil and the committed subtree is dropped")
 		})
